@@ -432,6 +432,10 @@ T(t_decmod)(T(ctx) *c)
 /* ------------------------------------------------------------------ */
 /* modular exponentiation */
 
+/* T(g_full): 0 = normal suite; 1 / 2 = one call with an exponent as long as the modulus (top bit set, random operand),
+   modpow_opt with the smallest guaranteed / the largest useful temporary area (see T(modpow_full)) */
+static int T(g_full) = 0;
+
 static void
 T(t_modpow)(T(ctx) *c)
 {
@@ -445,6 +449,12 @@ T(t_modpow)(T(ctx) *c)
 		unsigned char *ebuf;
 		size_t elen;
 		int ecls = (i * 3 + (int)c->k) % NECLS;
+		if (T(g_full)) {
+			if (i > 0) break;
+			eb = c->mb;
+			ecls = 6;
+			vf_stat("modpow_fullsize_large_modulus", 1);
+		}
 		switch (i) {
 		case 0: elen = eb; break;
 		case 1: elen = 0; break;
@@ -454,7 +464,7 @@ T(t_modpow)(T(ctx) *c)
 		ebuf = blk_new(&be, elen, vf_below(&R, 4), 0);
 		gen_exp(ebuf, elen, ecls);
 		mpz_import(ez, elen, 1, 1, 0, 0, ebuf);
-		gen_value(x, c->m, (i * 7 + (int)c->k) % NCLS, WB);
+		gen_value(x, c->m, T(g_full) ? 7 : (i * 7 + (int)c->k) % NCLS, WB);
 		T(cbegin)(c, "modpow");
 		case_add(" x=%Zx elen=%u e=%Zx", x, (unsigned)elen, ez);
 		T(op_val)(&ox, c->n, T(padrnd)(), MONT_SLACK, x, c->k);
@@ -582,6 +592,13 @@ T(t_modpow_opt)(T(ctx) *c, int which)
 	if (top < min_impl) top = min_impl;
 
 #define WCLASS(sz) T(wclass)(thr, nthr, min_impl, (sz))
+	if (T(g_full)) {
+		size_t sz = T(g_full) == 1 ? min_impl : top;
+		T(modpow_opt_one)(c, which, sz * mul, c->mb, 6, 7, min_doc * mul, min_impl * mul, WCLASS(sz));
+		vf_stat("modpow_fullsize_large_modulus", 1);
+		vf_distinct("fullsize", "%s:%d:k%u:%s", VAR_NAME, which, c->k, T(g_full) == 1 ? "min-tmp" : "max-window");
+		return;
+	}
 	n3 = (long long)c->n * (long long)c->n * (long long)c->n;
 	if (2100 * n3 <= 8 * g_budget) {
 		/* every size from below the minimum to beyond the largest window */
@@ -967,6 +984,27 @@ T(wordfn)(unsigned worker, unsigned nworkers)
 		}
 		for (i = 0; i < 4000; i ++) T(ninv_one)((W)(vf_u32(&R) & WMAX));
 	}
+}
+
+/* one exponentiation modulo a random odd k-bit modulus with an exponent of k bits.
+   which: 0 = br_iNN_modpow_opt, 1 = br_i62_modpow_opt, 3 = br_iNN_modpow; mode: 1 = smallest temporary area that
+   is guaranteed to work, 2 = area of the largest window */
+static void
+T(modpow_full)(unsigned k, int which, int mode)
+{
+	T(ctx) c;
+	T(g_alt) = 0;
+	T(ctx_init)(&c, k, 0, 1);
+	T(g_full) = mode;
+	if (which == 3) T(t_modpow)(&c);
+#if HAVE_MODPOW_OPT
+	else if (which == 0) T(t_modpow_opt)(&c, 0);
+#endif
+#if HAVE_I62
+	else if (which == 1) T(t_modpow_opt)(&c, 1);
+#endif
+	T(g_full) = 0;
+	T(ctx_clear)(&c);
 }
 
 static void
